@@ -7,7 +7,8 @@ Text form (what harness/drv/drv_future.cpp parses):
   (lists: i1_2_3).  Keys: h handle, H second handle, f future id, g second future id, s schedulable
   (1 manual queue, 2 ImmediateInvoker, 3 NewThreadInvoker, 4 ThreadPool, 5 TaskSet, 6 ConcurrentTaskSet),
   a async policy, d deferred policy, v value (<= -100: the functor throws) or microseconds, t task set,
-  w workers, k task-set kind, I input handles, i input ids, y callback future ids, r 1 = tuple overload.
+  w workers, k task-set kind, I input handles, i input ids, y callback future ids, r 1 = tuple overload,
+  x 1 = created through dispenso::async(schedulable, policy, functor) instead of the Future constructor.
 
 This module derives from a text program
   * the JSON / TLA+ form of the program  (prog: thread -> [op records])
@@ -135,6 +136,8 @@ MC = {
     'wall0': 'main:wall.h3.f1.I.i.y,get.h3.f1,del.h3.f1;p1:wany.h4.f2.I.i.y,get.h4.f2,del.h4.f2',
     'wany': 'main:mk.h1.f1.s1.a0.d1.v7,mk.h2.f2.s1.a0.d1.v8,go,wany.h3.f3.I1_2.i1_2.y4_5,get.h3.f3,del.h3.f3,del.h1.f1,del.h2.f2;r:up,runq,runq',
     'wany1': 'main:mk.h1.f1.s1.a0.d1.v7,go,wany.h3.f2.I1.i1.y3,get.h3.f2,del.h3.f2,del.h1.f1;r:up,runq',
+    'wanyt': 'main:mk.h1.f1.s1.a0.d1.v7,mk.h2.f2.s1.a0.d1.v8,go,wany.h3.f3.I1_2.i1_2.y4_5.r1,get.h3.f3,del.h3.f3,del.h1.f1,del.h2.f2;r:up,runq,runq',
+    'wallt': 'main:mk.h1.f1.s1.a0.d1.v7,mk.h2.f2.s1.a0.d1.v8,go,wall.h3.f3.I1_2.i1_2.y4_5.r1,get.h3.f3,del.h3.f3,del.h1.f1,del.h2.f2;r:up,runq,runq',
     'wallts': 'main:new.w0,tsnew.t1.k5,mk.h1.f1.s1.a0.d1.v7,go,wall.h3.f2.I1.i1.y3.t1,tswait.t1,rdy.h3.f2,del.h3.f2,del.h1.f1,sync,tsdel.t1,delp;r:up,runq',
 }
 
@@ -165,43 +168,38 @@ GROUPS = {
 }
 
 
-def write_mc(path):
-    d = os.path.dirname(path)
-    with open(path, 'w') as f:
-        f.write('------------------------------ MODULE MCFuture ------------------------------\n')
-        f.write('(* Model-checking programs for Future.tla - GENERATED by spec/future/gen.py (python3 gen.py mc) *)\n')
-        f.write('EXTENDS Future\n\n')
-        for k, v in MC.items():
-            dr, ws, nts = threads_of(v)
-            f.write(tla_defs(k, v))
-            f.write('Workers_%s == {%s}\nNTs_%s == <<%s>>\nThreads_%s == {%s}\n\n' % (
-                k, ', '.join('"%s"' % w for w in ws), k, ', '.join('"%s"' % n for n in nts), k,
-                ', '.join('"%s"' % n for n in dr + ws + nts)))
-        for gname, members in GROUPS.items():
-            ws, nts, names = set(), [], set()
-            for k in members:
-                dr, w, nt = threads_of(MC[k])
-                ws |= set(w)
-                names |= set(dr)
-                if len(nt) > len(nts):
-                    nts = nt
-            f.write('\\* %s\nInit_%s == %s\n' % (' + '.join(members), gname, ' \\/ '.join('Init_' + k for k in members)))
-            f.write('Workers_%s == {%s}\nNTs_%s == <<%s>>\nThreads_%s == {%s}\n\n' % (
-                gname, ', '.join('"%s"' % w for w in sorted(ws)), gname, ', '.join('"%s"' % n for n in nts), gname,
-                ', '.join('"%s"' % n for n in sorted(names) + sorted(ws) + nts)))
-        f.write('=============================================================================\n')
-    for gname, members in GROUPS.items():
+def write_mc(d):
+    """One small module per model (TLC pre-evaluates every constant definition of a module: one module with all the
+    programs costs ~1 s per program at every start-up): MCFuture_<name>.tla + MC_<name>.cfg (+ MC_<name>_fixed.cfg)."""
+    for f in os.listdir(d):
+        if f.startswith('MCFuture') or (f.startswith('MC_') and f.endswith('.cfg')):
+            os.remove(os.path.join(d, f))
+    models = {k: [k] for k in MC}
+    models.update(GROUPS)
+    for name, members in models.items():
+        ws, nts, names = set(), [], []
+        body = ''
+        for k in members:
+            dr, w, nt = threads_of(MC[k])
+            ws |= set(w)
+            names += [n for n in dr if n not in names]
+            if len(nt) > len(nts):
+                nts = nt
+            body += tla_defs(k, MC[k]) + '\n'
+        with open(os.path.join(d, 'MCFuture_%s.tla' % name), 'w') as f:
+            f.write('---------------------------- MODULE MCFuture_%s ----------------------------\n' % name)
+            f.write('(* Model-checking program(s) for Future.tla - GENERATED by spec/future/gen.py (python3 gen.py mc) *)\n')
+            f.write('EXTENDS Future\n\n' + body)
+            f.write('MCInit == %s\n' % ' \\/ '.join('Init_' + k for k in members))
+            f.write('MCWorkers == {%s}\nMCNTs == <<%s>>\nMCThreads == {%s}\n' % (
+                ', '.join('"%s"' % w for w in sorted(ws)), ', '.join('"%s"' % n for n in nts),
+                ', '.join('"%s"' % n for n in names + sorted(ws) + nts)))
+            f.write('=============================================================================\n')
         for fixed in ((False, True) if any('wany' in MC[k] for k in members) else (False,)):
-            with open(os.path.join(d, 'MC_%s%s.cfg' % (gname, '_fixed' if fixed else '')), 'w') as f:
-                f.write('CONSTANTS\n  Workers <- Workers_%s\n  NTs <- NTs_%s\n  ThreadNames <- Threads_%s\n  WyFix = %s\n'
-                        '  AllowSpurious = FALSE\nINIT Init_%s\nNEXT Next\nCHECK_DEADLOCK TRUE\nINVARIANTS %s\n'
-                        % (gname, gname, gname, 'TRUE' if fixed else 'FALSE', gname, INVARIANTS))
-    for k, v in MC.items():
-        for fixed in ((False, True) if 'wany' in v else (False,)):
-            with open(os.path.join(d, 'MC_%s%s.cfg' % (k, '_fixed' if fixed else '')), 'w') as f:
-                f.write('CONSTANTS\n  Workers <- Workers_%s\n  NTs <- NTs_%s\n  ThreadNames <- Threads_%s\n  WyFix = %s\n'
-                        '  AllowSpurious = FALSE\nINIT Init_%s\nNEXT Next\nCHECK_DEADLOCK TRUE\nINVARIANTS %s\n'
-                        % (k, k, k, 'TRUE' if fixed else 'FALSE', k, INVARIANTS))
+            with open(os.path.join(d, 'MC_%s%s.cfg' % (name, '_fixed' if fixed else '')), 'w') as f:
+                f.write('CONSTANTS\n  Workers <- MCWorkers\n  NTs <- MCNTs\n  ThreadNames <- MCThreads\n  WyFix = %s\n'
+                        '  AllowSpurious = FALSE\nINIT MCInit\nNEXT Next\nCHECK_DEADLOCK TRUE\nINVARIANTS %s\n'
+                        % ('TRUE' if fixed else 'FALSE', INVARIANTS))
 
 
 # --------------------------------------------------------------------------- random programs
@@ -249,7 +247,8 @@ def random_program(rng, kind):
         v = rng.choice([7, 8, 9, -100])
         a = rng.choice([0, 0, 1]) if s in (4, 5, 6) else 0
         d = rng.choice([0, 1])
-        main.append('mk.h%d.f%d.s%d.a%d.d%d.v%d%s' % (h, f, s, a, d, v, '.t%d' % t if t else ''))
+        x = 1 if s in (3, 4, 5, 6) and rng.random() < 0.4 else 0     # created through dispenso::async(schedulable, policy, f)
+        main.append('mk.h%d.f%d.s%d.a%d.d%d.v%d%s%s' % (h, f, s, a, d, v, '.t%d' % t if t else '', '.x1' if x else ''))
         if s == 1:
             cnt['runq'] += 1
         base.append((h, f))
@@ -309,8 +308,9 @@ def random_program(rng, kind):
                 ys = [fid() for _ in sel]
                 t = rng.choice([0] + ts_used) if is_main else 0
                 w = rng.choice(['wall', 'wany'])
-                ops.append('%s.h%d.f%d.I%s.i%s.y%s%s' % (w, hR, R, '_'.join(str(x[1]) for x in sel), '_'.join(str(x[0]) for x in sel),
-                                                         '_'.join(str(y) for y in ys), '.t%d' % t if t else ''))
+                tup = t == 0 and len(sel) in (1, 2) and rng.random() < 0.35     # the variadic (tuple) overloads
+                ops.append('%s.h%d.f%d.I%s.i%s.y%s%s%s' % (w, hR, R, '_'.join(str(x[1]) for x in sel), '_'.join(str(x[0]) for x in sel),
+                                                           '_'.join(str(y) for y in ys), '.t%d' % t if t else '', '.r1' if tup else ''))
                 hs.append((hR, R, 'v' if w == 'wall' else 's'))
         rng.shuffle(hs)
         for (h, f, k) in hs:     # every handle is destroyed by its owner; a getter first now and then
@@ -348,7 +348,7 @@ def well_formed(text):
 
 if __name__ == '__main__':
     if len(sys.argv) > 1 and sys.argv[1] == 'mc':
-        write_mc(os.path.join(os.path.dirname(os.path.abspath(__file__)), 'MCFuture.tla'))
+        write_mc(os.path.dirname(os.path.abspath(__file__)))
     elif len(sys.argv) > 2 and sys.argv[1] == 'rand':
         rng = random.Random(int(sys.argv[2]))
         for _ in range(int(sys.argv[3]) if len(sys.argv) > 3 else 5):
